@@ -59,7 +59,7 @@ var genFiles = []genFile{
 	{Name: "PolicyOrder", ModelImports: []string{"NodeApi"}},
 	{Name: "Limits", ModelImports: []string{"NodeApi"}, Prelude: "variable (ext_self : Node → GoM Unit)\n", Postlude: limitsPostlude},
 	{Name: "PolicyDecode", Imports: []string{"Limits"}, ModelImports: []string{"NodeApi"}, Prelude: "variable (ext_statementsFromIPLD : Node → GoM (List (Option S)))\n"},
-	{Name: "Sealed", Imports: []string{"ChainTypes"}, Prelude: "variable {T : Type} (ext_FromDagCbor : Bytes → GoM T) (ext_dlgFromDagCbor : Bytes → GoM (DlgTok D S)) (ext_invFromDagCbor : Bytes → GoM (InvTok D C A))\n  (ext_CheckCanonical : Bytes → GoM Unit) (ext_CIDFromBytes : Bytes → GoM C)\n"},
+	{Name: "Sealed", Imports: []string{"ChainTypes"}, Prelude: "variable {T : Type} (ext_FromDagCbor : Bytes → GoM T) (ext_dlgFromDagCbor : Bytes → GoM (DlgTok D S)) (ext_invFromDagCbor : Bytes → GoM (InvTok D C A))\n  (ext_CheckCanonical : Bytes → GoM Unit) (ext_CIDFromBytes : Bytes → GoM C)\n  {K : Type} (ext_dlgToDagCbor : DlgTok D S → K → GoM Bytes) (ext_invToDagCbor : InvTok D C A → K → GoM Bytes)\n"},
 	{Name: "Args", Imports: []string{"Limits"}, ModelImports: []string{"NodeApi"}, Structs: []string{"args.Args"}},
 	{Name: "ChainEntry", Imports: []string{"ChainTypes"}, Prelude: chainEntryPrelude},
 	{Name: "ChainProofsShell", Imports: []string{"ChainTypes"}, Prelude: "variable (ext_Covers : Bytes → Bytes → GoM Bool)\n"},
@@ -89,6 +89,8 @@ var targets = []target{
 	{Dir: "token", Name: "FromSealed", Lean: "token_FromSealed", File: "Sealed", Uses: []string{"ext_FromDagCbor", "ext_CheckCanonical", "ext_CIDFromBytes"}},
 	{Dir: "token/delegation", Name: "FromSealed", Lean: "Dlg_FromSealed", File: "Sealed", Uses: []string{"ext_dlgFromDagCbor", "ext_CheckCanonical", "ext_CIDFromBytes"}},
 	{Dir: "token/invocation", Name: "FromSealed", Lean: "Inv_FromSealed", File: "Sealed", Uses: []string{"ext_invFromDagCbor", "ext_CheckCanonical", "ext_CIDFromBytes"}},
+	{Dir: "token/delegation", Recv: "Token", Name: "ToSealed", Lean: "Dlg_ToSealed", File: "Sealed", Uses: []string{"ext_CIDFromBytes", "ext_dlgToDagCbor"}},
+	{Dir: "token/invocation", Recv: "Token", Name: "ToSealed", Lean: "Inv_ToSealed", File: "Sealed", Uses: []string{"ext_CIDFromBytes", "ext_invToDagCbor"}},
 	{Dir: "pkg/policy", Name: "parseGlob", Lean: "parseGlob", File: "Glob", Fuel: []string{"pattern.length + 1"}},
 	{Dir: "pkg/policy", Recv: "glob", Name: "Match", Lean: "glob_Match", File: "Glob",
 		Fuel: []string{"(str.length + 1) * (pattern.length + 2) + 1", "pattern.length + 1"}},
@@ -184,6 +186,7 @@ var typeTable = map[string]string{
 	"multicodec.Code":   "Int", // a multicodec code is an unsigned varint; only compared with constants
 	"args.ReadOnly":     "R",   // the read-only view handed to an argument hook
 	"token.Token":       "T",   // the interface both token types satisfy: only handed on
+	"crypto.PrivKey":    "K",   // a signing key: only handed on
 }
 
 // structDef is a Go struct whose listed fields are modelled; the Lean structure is generated from the
@@ -347,6 +350,8 @@ var externMethods = map[string]libCall{
 	"*args.Args.ReadOnly":             {"(ext_ReadOnly $r)", ty{"R", "args.ReadOnly"}, []string{"ext_ReadOnly"}},
 	"*args.Args.Validate":             {"(ext_argsValidate $r)", ty{"Unit", "unit"}, []string{"ext_argsValidate"}},
 	"*args.Args.ToIPLD":               {"(ext_toIPLD $r)", ty{"N", "datamodel.Node"}, []string{"ext_toIPLD"}},
+	"delegation.Token.ToDagCbor":      {"(ext_dlgToDagCbor $r $1)", ty{"Bytes", "[]byte"}, []string{"ext_dlgToDagCbor"}},
+	"invocation.Token.ToDagCbor":      {"(ext_invToDagCbor $r $1)", ty{"Bytes", "[]byte"}, []string{"ext_invToDagCbor"}},
 }
 
 // shellMethods: the parameters a shell target takes for the methods it calls.
@@ -407,6 +412,8 @@ var useTypes = map[string]string{
 	"ext_invFromDagCbor":     "Bytes → GoM (InvTok D C A)",
 	"ext_CheckCanonical":     "Bytes → GoM Unit",
 	"ext_CIDFromBytes":       "Bytes → GoM C",
+	"ext_dlgToDagCbor":       "DlgTok D S → K → GoM Bytes",
+	"ext_invToDagCbor":       "InvTok D C A → K → GoM Bytes",
 	"ext_statementsFromIPLD": "Node → GoM (List (Option S))",
 	"ext_self":               "Node → GoM Unit", // limits.ValidateIntegerBoundsIPLD calling itself (open recursion)
 }
